@@ -90,7 +90,8 @@ def make_obs(ctx):
                 'OR(AND(L(0), L(1)), AND(L(2), L(3)))', 'NOT(AND(OR(L(0), L(1)), OR(L(2), L(3))))',
                 'AND(OR(L(0), L(1)), AND(L(2), L(3)))', 'AND(L(0), OR(L(1), OR(L(2), L(3))))',
                 'AND(AND(L(0), OR(L(1), L(2))), L(3))', 'AND(AND(OR(L(0), L(1)), L(2)), L(3))',
-                'AND(L(0), AND(OR(L(1), L(2)), L(3)))', 'AND(AND(L(0), L(1)), OR(L(2), L(3)))']
+                'AND(L(0), AND(OR(L(1), L(2)), L(3)))', 'AND(AND(L(0), L(1)), OR(L(2), L(3)))',
+                'AND(AND(AND(L(0), L(1)), OR(L(2), L(3))), L(4))', 'AND(OR(L(0), L(1)), AND(OR(L(2), L(3)), L(4)))']
         trees += four
     else:
         import random
